@@ -261,7 +261,13 @@ def run(ctx):
                 elif t == 'bool':
                     n = 1
                     v = rng.random() < 0.5
-                    w.write_bool(v)
+                    # a flag is given as True/False or as 1/0 (what a hand-written JSON holds), directly or through write()
+                    given = rng.choice([v, int(v), v, int(v)])
+                    if rng.random() < 0.5:
+                        w.write_bool(given)
+                    else:
+                        w.write(given, 'bool', 1)
+                    ctx.add('bool_forms_written', type(given).__name__)
                     model += '1' if v else '0'
                 elif t == 'bin':
                     n = rng.randint(1, 64)
